@@ -43,6 +43,10 @@ ASSUMPTIONS = [
     "int for topic positions; int, SubscribeOptions, None/str for QoS positions)",
     "bool QoS values, float QoS values, str/bytes subclasses and containers in a tuple's first position are outside the modelled domain",
     "atomicity is observed on the implementation here; the theorem on session model M2 is stated separately",
+    "SUBSCRIBE total-size limit (>= 4096 maximal filters): the extracted model cannot be fed 268 M integers, the expected "
+    "outcome of those few cases is the MQTT 3.8 length arithmetic restated in the harness (model side: theorem "
+    "C19_subscribe_connected_exact)",
+    "the packed length of MQTT 5 publish properties is taken from Properties.pack() (codec: C17)",
 ]
 
 VERSIONS = [(mqtt.MQTTv31, 3), (mqtt.MQTTv311, 4), (mqtt.MQTTv5, 5)]
